@@ -59,3 +59,9 @@ ENTRIES += [
     B('ipv4-octet-bound-off-by-one', "    elif num_decimals == 3:\n", "    elif num_decimals == 3:\n        if any(parse_ipv4_int(part) >= 255 for part in address.split('.')):\n            raise ValueError('IPv4 address part out of range')\n", 'C10-D1'),
     N('ipv4-octet-bound-exact', "    elif num_decimals == 3:\n", "    elif num_decimals == 3:\n        if any(parse_ipv4_int(part) > 255 for part in address.split('.')):\n            raise ValueError('IPv4 address part out of range')\n"),
 ]
+
+ENTRIES += [
+    {'id': 'C10/benign-escape-pattern-compiled', 'prop': 'C10', 'kind': 'benign', 'edits': [
+        ('wpull/url.py', "def uppercase_percent_encoding(text):", "_ESCAPE_PATTERN = re.compile(r'%[0-9a-fA-F]{2}')\n\n\ndef uppercase_percent_encoding(text):"),
+        ('wpull/url.py', "    return re.sub(\n        r'%[a-fA-F0-9][a-fA-F0-9]',\n        lambda match", "    return _ESCAPE_PATTERN.sub(\n        lambda match")]},
+]
